@@ -169,6 +169,31 @@ let pconc_case (toks : string list) : string =
   | "F" :: _ -> "F bad=0"
   | _ -> "BADCASE"
 
+(* ---------------- promise API scripts (C11) ---------------- *)
+
+let promise_case (toks : string list) : string =
+  match toks with
+  | "S" :: ops ->
+    let parse o =
+      let body = String.sub o 1 (String.length o - 1) in
+      match o.[0] with
+      | 'N' -> M.PNew
+      | 'T' -> (match String.split_on_char ':' body with
+          | [ src; vo; ts ] -> M.PThen (nat_of_int (int_of_string src), vo = "v", (if ts = "t" then M.HThrow else M.HSwallow))
+          | _ -> M.PNew)
+      | 'R' -> (match String.split_on_char ':' body with [ p; v ] -> M.PResolve (nat_of_int (int_of_string p), n_of_int (int_of_string v)) | _ -> M.PNew)
+      | 'J' -> (match String.split_on_char ':' body with [ p; v ] -> M.PReject (nat_of_int (int_of_string p), n_of_int (int_of_string v)) | _ -> M.PNew)
+      | 'A' -> M.PAll (List.map (fun x -> nat_of_int (int_of_string x)) (String.split_on_char ',' body))
+      | _ -> M.PAny (List.map (fun x -> nat_of_int (int_of_string x)) (String.split_on_char ',' body)) in
+    let st = M.run_prog (List.map parse ops) in
+    let ev = function
+      | M.ERes (k, v) -> Printf.sprintf " %dR%s" (int_of_nat k) (String.concat "." (List.map (fun x -> string_of_int (int_of_n x)) v))
+      | M.ERej (k, e) -> Printf.sprintf " %dJ%d" (int_of_nat k) (int_of_n e)
+      | M.EErr -> " E" in
+    let l = String.concat "" (List.map ev st.M.plog) in
+    "S" ^ (if l = "" then " -" else l)
+  | _ -> "BADCASE"
+
 let () =
   let area = Sys.argv.(1) in
   let f = match area with
@@ -177,6 +202,7 @@ let () =
     | "router" -> router_case
     | "queue" -> queue_case
     | "pconc" -> pconc_case
+    | "promise" -> promise_case
     | _ -> failwith ("unknown area " ^ area) in
   try
     while true do
